@@ -207,3 +207,10 @@ func Sleep(d int64) {
 	w.yield(pendingOp{kind: opAwait, enabled: func() bool { return fired }, desc: "sleep"})
 	w.cur.h = mix(w.cur.h, 0x38, uint64(w.now))
 }
+
+// NewSleepChan returns a channel that is closed after d virtual ns.
+func NewSleepChan(d int64) <-chan struct{} {
+	ch := make(chan struct{})
+	NewTimer(d, 0, func(t *Timer) { TimerClose(t, ch) })
+	return ch
+}
